@@ -171,6 +171,26 @@ def mk(rng, nsel, having_kind, norder, limit, distinct, tie_first=False):
     return {"meta": meta, "sql": txt, "rows": rows}
 
 
+def join_variant(sc, rng):
+    """the same statement with the group column taken from a joined table and reported under an alias (SELECT m.loc AS site ...
+    GROUP BY m.loc), HAVING naming it by its qualified name: the post-aggregation clauses see the same groups. The table maps g to
+    itself, so the monitor's grouping by the stream column g is the grouping by m.loc; the driver maps the output column back."""
+    if not sc["meta"]["gsel"] or sc["meta"]["distinct"]:
+        return None
+    groups = sorted({r["g"] for r in sc["rows"]})
+    sql0 = sc["sql"]
+    if "SELECT g, " not in sql0 or " FROM stream GROUP BY g, " not in sql0:
+        return None
+    txt = sql0.replace("SELECT g, ", "SELECT m.loc AS site, ", 1).replace(" FROM stream GROUP BY g, ", " FROM stream JOIN meta m ON g = m.g GROUP BY m.loc, ", 1)
+    guard = rng.choice(["m.loc IS NOT NULL", "m.loc LIKE '%'", "m.loc != 'qq'"])      # true for every group
+    if " HAVING " in txt:
+        txt = txt.replace(" HAVING ", " HAVING %s AND " % guard, 1)
+    else:
+        txt = txt.replace(" WITH (TIMESTAMP", " HAVING %s WITH (TIMESTAMP" % guard, 1)
+    out = dict(sc, sql=txt, tables=[{"name": "meta", "rows": [{"g": x, "loc": x} for x in groups], "keys": ["g"]}], colmap={"g": "site"}, norename=True)
+    return out
+
+
 def ItemE(sel, al):
     return [it["e"] for it in sel if it["al"] == al][0]
 
@@ -189,6 +209,13 @@ def run(tier):
         sc = mk(rng, rng.choice([1, 2, 2, 3]), [None, "alias", "agg", "and2"][i % 4], [0, 1, 1, 2][(i // 4) % 4], [0, 0, 1, 2, 5][(i // 16) % 5] if (i // 4) % 4 else 0, i % 11 == 0)
         if sc is not None:
             scen.append(sc)
+    nj = 0
+    for sc in list(scen):
+        if nj >= (150 if quick else 4000): break
+        if "and" in json.dumps(sc["meta"].get("having", {})): continue
+        jv = join_variant(sc, rng)
+        if jv is not None:
+            scen.append(jv); nj += 1
     # ORDER BY with ties on the first key broken by a second key (the first key is a small count)
     made = 0
     while made < (150 if quick else 5000):
